@@ -66,13 +66,17 @@ Open Scope Z_scope.
 Definition is_byte (z : Z) : Prop := 0 <= z <= 255.
 Definition bytes_ok (l : list Z) : Prop := Forall is_byte l.
 
-Definition mask_ok (m : maskd) : Prop :=
-  bytes_ok (mk_data m) /\ is_byte (mk_bg m) /\ match mk_density m with None => True | Some d => is_byte d end.
+(* plane values lie between 0 and the scale of the layer's planes *)
+Definition vals_ok (den : positive) (l : list Z) : Prop := Forall (fun z => 0 <= z <= Zpos den) l.
+
+Definition mask_ok (den : positive) (m : maskd) : Prop :=
+  vals_ok den (mk_data m) /\ is_byte (mk_bg m) /\ match mk_density m with None => True | Some d => is_byte d end.
 Definition attrs_ok (a : attrs) : Prop :=
-  is_byte (at_op a) /\ is_byte (at_fill a) /\ match at_mask a with None => True | Some m => mask_ok m end.
+  is_byte (at_op a) /\ is_byte (at_fill a) /\ match at_mask a with None => True | Some m => mask_ok (at_den a) m end.
 
 Inductive layer_ok : layer -> Prop :=
-| ok_px rc chans alpha at_ : Forall bytes_ok chans -> bytes_ok alpha -> attrs_ok at_ -> layer_ok (Px rc chans alpha at_)
+| ok_px rc chans alpha at_ :
+    Forall (vals_ok (at_den at_)) chans -> vals_ok (at_den at_) alpha -> attrs_ok at_ -> layer_ok (Px rc chans alpha at_)
 | ok_gr pass ch at_ : Forall layer_ok ch -> attrs_ok at_ -> layer_ok (Gr pass ch at_).
 
 Open Scope R_scope.
@@ -86,15 +90,26 @@ Proof.
   - apply Rmult_le_reg_r with 255; [lra|]. unfold Rdiv. rewrite Rmult_assoc, Rinv_l by lra. lra.
 Qed.
 
-Lemma nth_byte (l : list Z) n : bytes_ok l -> is_byte (nth n l 0%Z).
+Lemma pval_unit den z : (0 <= z <= Zpos den)%Z -> unit (@pval ROps den z).
 Proof.
-  intros H. destruct (Nat.lt_ge_cases n (length l)) as [Hl|Hl].
-  - unfold bytes_ok in H. rewrite Forall_forall in H. apply H. apply nth_In. exact Hl.
-  - rewrite nth_overflow by exact Hl. unfold is_byte. lia.
+  intros [H0 H1]. unfold pval, unit. cbn.
+  apply IZR_le in H0. apply IZR_le in H1.
+  assert (Hp : 0 < IZR (Zpos den)) by (apply IZR_lt; lia).
+  split.
+  - apply Rmult_le_pos; [exact H0|]. left. apply Rinv_0_lt_compat. exact Hp.
+  - apply Rmult_le_reg_r with (IZR (Zpos den)); [exact Hp|].
+    unfold Rdiv. rewrite Rmult_assoc, Rinv_l by lra. lra.
 Qed.
 
-Lemma plane_at_unit data w i j : bytes_ok data -> unit (@plane_at ROps data w i j).
-Proof. intros H. unfold plane_at. apply byte_unit. apply nth_byte. exact H. Qed.
+Lemma nth_val den (l : list Z) n : vals_ok den l -> (0 <= nth n l 0 <= Zpos den)%Z.
+Proof.
+  intros H. destruct (Nat.lt_ge_cases n (length l)) as [Hl|Hl].
+  - unfold vals_ok in H. rewrite Forall_forall in H. apply H. apply nth_In. exact Hl.
+  - rewrite nth_overflow by exact Hl. lia.
+Qed.
+
+Lemma plane_at_unit den data w i j : vals_ok den data -> unit (@plane_at ROps den data w i j).
+Proof. intros H. unfold plane_at. apply pval_unit. apply nth_val. exact H. Qed.
 
 Lemma paste_unit vp bb (vals : Z -> Z -> R) bg i j :
   (forall i j, unit (vals i j)) -> unit bg -> unit (paste vp bb vals bg i j).
@@ -115,13 +130,13 @@ Proof.
   assert (Hmd : unit (fst (match at_mask at_ with
       | Some mk => if mk_disabled mk then (@f1 ROps, @f1 ROps) else
           (match mk_data mk with [] => @f1 ROps | _ :: _ =>
-             paste (vl, vt, vr, vb) (mk_rect mk) (@plane_at ROps (mk_data mk) (rwidth (mk_rect mk))) (@byte ROps (mk_bg mk)) (y - vt) (x - vl) end,
+             paste (vl, vt, vr, vb) (mk_rect mk) (@plane_at ROps (at_den at_) (mk_data mk) (rwidth (mk_rect mk))) (@byte ROps (mk_bg mk)) (y - vt) (x - vl) end,
            match mk_density mk with None => @f1 ROps | Some d => @byte ROps d end)
       | None => (@f1 ROps, @f1 ROps) end)) /\
      unit (snd (match at_mask at_ with
       | Some mk => if mk_disabled mk then (@f1 ROps, @f1 ROps) else
           (match mk_data mk with [] => @f1 ROps | _ :: _ =>
-             paste (vl, vt, vr, vb) (mk_rect mk) (@plane_at ROps (mk_data mk) (rwidth (mk_rect mk))) (@byte ROps (mk_bg mk)) (y - vt) (x - vl) end,
+             paste (vl, vt, vr, vb) (mk_rect mk) (@plane_at ROps (at_den at_) (mk_data mk) (rwidth (mk_rect mk))) (@byte ROps (mk_bg mk)) (y - vt) (x - vl) end,
            match mk_density mk with None => @f1 ROps | Some d => @byte ROps d end)
       | None => (@f1 ROps, @f1 ROps) end))).
   { destruct (at_mask at_) as [mk|]; [|split; apply unit_1].
@@ -157,7 +172,7 @@ Proof.
     constructor; try assumption.
     + apply paste_unit; [|apply unit_1]. intros. apply plane_at_unit.
       destruct (Nat.lt_ge_cases k (length chans)) as [Hk|Hk].
-      * match goal with H : Forall bytes_ok chans |- _ => rewrite Forall_forall in H; apply H end. apply nth_In. exact Hk.
+      * match goal with H : Forall (vals_ok (at_den at_)) chans |- _ => rewrite Forall_forall in H; apply H end. apply nth_In. exact Hk.
       * rewrite nth_overflow by exact Hk. constructor.
     + apply paste_unit; [|apply unit_0]. intros. apply plane_at_unit. assumption.
     + apply factors_at_ok. assumption.
